@@ -598,7 +598,8 @@ fn record_to_proto(record: Record) -> proto::Record {
             .map(|t| {
                 let now = Instant::now();
                 if t > now {
-                    (t - now).as_secs() as u32
+                    // at least 1 because 0 means "does not expire"; saturate instead of wrapping
+                    u32::try_from((t - now).as_secs()).unwrap_or(u32::MAX).max(1)
                 } else {
                     1 // because 0 means "does not expire"
                 }
